@@ -311,6 +311,30 @@ def feature_cases(run, scratch):
     return out
 
 
+def length_sweep_cases(exe, tmpdir):
+    """Documents whose built-in export is exactly 16380..16388 characters (the exporter's first-guess buffer is 16384 bytes):
+    a probe run measures the export length of the topology with a known padding, then the padding of one root info is adjusted."""
+    cfg = ["filter all 0", "flags 8", "src synthetic package:2 [numa] l2:2 pu:2"]
+    fixed = ["ann info 0 %s %s" % (G.hx(b"Pad%d" % i), G.hx(b"f" * 3000)) for i in range(3)]
+
+    def mk(pad, name):
+        return Case(name, "feature", cfg, fixed + ["ann info 0 %s %s" % (G.hx(b"PadV"), G.hx(b"v" * pad))], ["feature", "length-sweep"])
+    rs, _ = execute(exe, [(mk(1000, "feature:export-length:probe"), ("0", "0"), "buffer", "v3")], tmpdir)
+    if not rs[0] or not rs[0]["X1"] or not rs[0]["X1"].startswith("X1 rc=0"):
+        return []
+    base = int(kv(rs[0]["X1"])["len"]) - 1 - 1000          # document length without the NUL, without the variable padding
+    out = []
+    for target in range(16380, 16389):
+        pad = target - base
+        if not 1 <= pad <= 3900:
+            continue
+        plan = [(("0", "0"), "buffer+dirty", "v3"), (("0", "0"), "file+dirty", "v3"), (("0", "1"), "buffer", "v3"), (("1", "1"), "buffer+dirty", "v3")]
+        if target == 16384:
+            plan += [(("0", "1"), "file", "v3"), (("1", "0"), "file+dirty", "v3"), (("0", "0"), "stdio", "v3")]
+        out.append((mk(pad, "feature:export-length:%d" % target), plan))
+    return out
+
+
 def snapshot_cases(run, scratch):
     rng = run.rng
     quick = run.tier == "quick"
@@ -633,6 +657,15 @@ def judge_rt(r, ver, flags):
         v.add("userdata-export-rc", b)
     # ---- spec on the exported text; buffer export == file export of the same (dirty) state ----
     x1b = hexbytes(kv(r["X1"])["hex"]) if " hex=-" not in r["X1"] else None
+    if x1b is not None and r["rt"]:
+        isbuf = kv(r["rt"]).get("mode") == "buffer"
+        body = x1b[:-1] if isbuf and x1b.endswith(b"\0") else x1b
+        if isbuf and not x1b.endswith(b"\0"):
+            v.add("export-shape:buffer-not-nul-terminated", "the returned buffer (buflen=%d) does not end with a NUL" % len(x1b))
+        if b"\0" in body:
+            v.add("export-shape:embedded-nul", "buflen / file length %d but the first NUL is at offset %d (buflen must be strlen+1, a file has no NUL)" % (len(x1b), body.index(b"\0")))
+        if not body.rstrip(b"\0").endswith(b"</topology>\n"):
+            v.add("export-shape:document-end", "the exported document does not end with '</topology>' and a newline: ...%r" % body[-24:])
     if x1b is not None or "textspec" in r:
         for c in (r["textspec"] if "textspec" in r else text_index_spec(x1b))[:2]:
             v.add("export-text:" + c.split(" ")[0] + "-dangling-reference", "the exported XML refers to an object it does not contain: " + c)
@@ -1034,7 +1067,7 @@ def check(run, replay=None):
                 jobs.append((Case("replay", "replay", cfg, anns), (p.group(1), p.group(2)), mode, ver))
             else:
                 cases = make_cases(run, scratch) + snapshot_cases(run, scratch) + plain_userdata_cases(run)
-                for c, plan in feature_cases(run, scratch):
+                for c, plan in feature_cases(run, scratch) + length_sweep_cases(exe, tmpdir):
                     for p, mode, ver in plan:
                         jobs.append((c, p, mode, ver))
                 for ci, c in enumerate(cases):
